@@ -29,11 +29,11 @@ Proof. vm_compute. reflexivity. Qed.
 
 Lemma scan_len_wrap_refuted :
   exists score sq k p ivs, 1 <= p <= k /\ k <= length sq /\
-    scan_w score sq k p 4 = Some ivs /\ exists x, In x ivs /\ (iv_len x < N.of_nat k)%N.
+    scan_checked_w score sq k p 4 = Some ivs /\ exists x, In x ivs /\ (iv_len x < N.of_nat k)%N.
 Proof.
   exists const_score, (repeat 0%N 16), 9, 2, [mkInterval [0;0]%N 7 0 0].
   split; [split; repeat constructor|]. split; [cbn; repeat constructor|].
-  split; [exact scan_len_wrap_small|].
+  split; [vm_compute; reflexivity|].
   exists (mkInterval [0;0]%N 7 0 0). split; [now left|reflexivity].
 Qed.
 
